@@ -238,7 +238,8 @@ Definition saveload_transcript (uuid : bool) (h : list Z) : list (list Z) :=
 From SV Require Export Checkers.UnwindChk.
 
 (* the model's transcript with the default oracle (ascending hash order, resources by storage id) *)
-Definition unwind_transcript (h : list Z) : list (list Z) := utr [] uw_init (decode_uhistory h).
+Definition unwind_transcript (h : list Z) : list (list Z) :=
+  if is_cs_history h then cs_transcript h else utr [] uw_init (decode_uhistory h).
 
 (* verdict on an implementation transcript [t]: the model's transcript run
    with the oracle read off [t], preceded by one entry
